@@ -316,6 +316,8 @@ def side_case(seed, quick=True):
         if which == 'exciton':
             n = rng.randint(2, 8)
             al, be = rng.uniform(-2, 2), rng.uniform(-2, 2)
+            if rng.random() < 0.3:
+                al = rng.choice([0, 1, -2, np.int64(2)])       # integer-typed site energy with a real coupling
             desc.update(n=n, alpha=al, beta=be)
             H = mat(mdl.exciton_chain(n, al, be))
             up, lo = np.array([[0, 0], [1, 0]]), np.array([[0, 1], [0, 0]])
